@@ -12,7 +12,8 @@ TRUSTED = BASE_TRUSTED + [
     "(which exception reaches the caller, what is still running), not step by step",
 ]
 NAMES9 = "400 warm rounds of task_group / parallel_for with simultaneous throwers"
-NAMES = ["task_group", "parallel_for", "parallel_reduce", "parallel_for_each", "parallel_invoke", "parallel_pipeline", "flow graph function_node", "task_arena::execute", "parallel_for nested in task_group", NAMES9]
+NAMES = ["task_group", "parallel_for", "parallel_reduce", "parallel_for_each", "parallel_invoke", "parallel_pipeline", "flow graph function_node", "task_arena::execute", "parallel_for nested in task_group", NAMES9,
+         "parallel_for (4 partitioners) / parallel_reduce where the k-th Range splitting constructor or Body copy/split constructor throws (k = 1..6)"]
 
 
 def run(ctx):
@@ -51,6 +52,8 @@ def run(ctx):
         runs.append([[8, 16][r % 2], ctx.seed * 100 + 5000 + r, 16, [0, 1, 3, 8][r % 4], 6])          # six bodies throw at the same moment
     for r in range(ctx.scale(3, 20)):
         runs.append([[8, 16, 12][r % 3], ctx.seed * 100 + 7000 + r, 12, 9, [6, 2, 4][r % 3]])
+    for r in range(ctx.scale(4, 40)):
+        runs.append([[2, 4, 8, 16][r % 4], ctx.seed * 100 + 9000 + r, [64, 16, 200, 5][r % 4], 10, 0])        # the k-th Range split / Body copy constructor throws
     ctx.rules.append("exc-mt (oracle only): nine constructs, 1-16 threads, 0/1/2/5 throwing bodies among 4-400: exactly one exception reaches the caller iff a body threw, it is one that was thrown, "
                      "no body is running at that moment and none starts afterwards, functor copies and exception objects are destroyed exactly once (throwers rendezvous so that several catch blocks race), the group/graph/arena is reusable; an exception escaping on a worker would terminate the process")
     bad = 0
